@@ -211,7 +211,10 @@ struct Diff {
   bool none() const { return cls.empty(); }
 };
 
-inline Diff diff(const Node& a, const Node& b, NumMode mode, const std::string& path = "$") {
+// diff_rel: the text of the result starts with the path RELATIVE to the pair compared (built on the way back, only when a
+// difference was found: comparing equal trees costs no string work, whatever their depth)
+inline Diff diff_rel(const Node& a, const Node& b, NumMode mode) {
+  static const std::string path; // relative path of this node: empty
   bool a_num = (a.k == Node::INT || a.k == Node::FLT), b_num = (b.k == Node::INT || b.k == Node::FLT);
   if (mode == NUMERIC_REL_1E9 && a_num && b_num) {
     if (a.k == Node::INT && b.k == Node::INT) {
@@ -257,8 +260,11 @@ inline Diff diff(const Node& a, const Node& b, NumMode mode, const std::string& 
     case Node::LIST: {
       if (a.items.size() != b.items.size()) return {"list-size", path + ": list sizes " + std::to_string(a.items.size()) + " vs " + std::to_string(b.items.size())};
       for (size_t k = 0; k < a.items.size(); k++) {
-        Diff d = diff(a.items[k], b.items[k], mode, path + "[" + std::to_string(k) + "]");
-        if (!d.none()) return d;
+        Diff d = diff_rel(a.items[k], b.items[k], mode);
+        if (!d.none()) {
+          d.text = "[" + std::to_string(k) + "]" + d.text;
+          return d;
+        }
       }
       return {};
     }
@@ -267,13 +273,22 @@ inline Diff diff(const Node& a, const Node& b, NumMode mode, const std::string& 
       auto sa = sorted_entries(a), sb = sorted_entries(b);
       for (size_t k = 0; k < sa.size(); k++) {
         if (sa[k]->first != sb[k]->first) return {"dict-key", path + ": key " + show_bytes(sa[k]->first) + " vs " + show_bytes(sb[k]->first)};
-        Diff d = diff(sa[k]->second, sb[k]->second, mode, path + "{" + show_bytes(sa[k]->first) + "}");
-        if (!d.none()) return d;
+        Diff d = diff_rel(sa[k]->second, sb[k]->second, mode);
+        if (!d.none()) {
+          d.text = "{" + show_bytes(sa[k]->first) + "}" + d.text;
+          return d;
+        }
       }
       return {};
     }
   }
   return {};
+}
+
+inline Diff diff(const Node& a, const Node& b, NumMode mode, const std::string& path = "$") {
+  Diff d = diff_rel(a, b, mode);
+  if (!d.none()) d.text = path + d.text;
+  return d;
 }
 
 // ---------------------------------------------------------------- wire codec (shim pipe)
